@@ -218,6 +218,9 @@ pub fn decide(l: Result<Lit, bool>) -> bool {
         Ok(l) => l,
     };
     let r: Result<bool, Abort> = with(|c| {
+        if !c.active {
+            return Err(Abort::Inconclusive("a data-dependent decision was requested outside an exploration".into()));
+        }
         if let Some(&v) = c.known.get(&l.atom) {
             return Ok(v == l.pos);
         }
